@@ -403,7 +403,8 @@ static int load_program(const char *path) {
 	return 0;
 }
 
-static const qos_class_t qos_tab[] = { QOS_CLASS_UNSPECIFIED, QOS_CLASS_BACKGROUND, QOS_CLASS_UTILITY, QOS_CLASS_DEFAULT, QOS_CLASS_USER_INITIATED, QOS_CLASS_USER_INTERACTIVE };
+// QOS_CLASS_* values (not in the public Linux headers): unspecified, background, utility, default, user-initiated, user-interactive
+static const unsigned qos_tab[] = { 0x00, 0x09, 0x11, 0x15, 0x19, 0x21 };
 
 static int create_objects(const char *path) {
 	for (int i = 0; i < MAXQ; i++) {
@@ -442,6 +443,7 @@ static int create_objects(const char *path) {
 			}
 		}
 	}
+	for (int i = 0; i < MAXQ; i++) CHAIN[i].chk = pat(0, 77);
 	for (int i = 0; i < MAXG; i++) if (G[i]) G[i] = dispatch_group_create();
 	for (int i = 0; i < MAXSEM; i++) if (SEM[i]) SEM[i] = dispatch_semaphore_create(sem_init[i]);
 	FILE *f = fopen(path, "r"); char line[512];
